@@ -2,12 +2,14 @@
 //! properties: C16
 //! note: the bottleneck formula of PaymentPath::max_final_value_msat: the contribution a path is raised to, plus the aggregated fee of the following hops, never exceeds the bottleneck hop's maximum
 //! trusted: R15 (statement slicing): the function is built from iterator chains and a HashMap and cannot be verified whole; the unit extracts the single statement `let hop_max_final_value_contribution = <expr>;` from the real function on every run and verifies <expr> as a function of the three variables it reads (hop_max_msat, next_hops_aggregated_base, next_hops_aggregated_prop); everything else in the function is dropped and not claimed
-//! trusted: assume_specification for core::cmp::min
+//! trusted: assume_specification for core::cmp::min / core::cmp::max
 //! note: that the aggregated (base, proportional) fee of the following hops covers the fee those hops charge when composed hop by hop is proved in unit u16c (lemma_aggregate_covers_composition)
 use vstd::prelude::*;
 verus! {
 use vstd::std_specs::cmp::*;
 use core::cmp;
+pub assume_specification<T: core::cmp::Ord>[core::cmp::max::<T>](a: T, b: T) -> (r: T)
+    ensures T::obeys_cmp_spec() ==> r == (if b.cmp_spec(&a) == core::cmp::Ordering::Less { a } else { b });
 pub assume_specification<T: core::cmp::Ord>[core::cmp::min::<T>](a: T, b: T) -> (r: T)
     ensures T::obeys_cmp_spec() ==> r == (if b.cmp_spec(&a) == core::cmp::Ordering::Less { b } else { a });
 
